@@ -149,6 +149,7 @@ structure Flags where
   segNil : Bool
   tooLate : Bool
   hintDisappeared : Bool
+  llEndsOnEndlist : Bool      -- fix-F28: LL loop, playlist without hint but with ENDLIST ⇒ nil marker instead of an error
   hintNoSegments : Bool
   streamPlaylistIsMedia : Bool
   noVariant : Bool
@@ -190,6 +191,7 @@ def genFlags : Flags where
   segNil := dlGuard "segNil"
   tooLate := dlGuard "tooLate"
   hintDisappeared := dlGuard "hintDisappeared"
+  llEndsOnEndlist := lowLatencyEndsOnEndlist
   hintNoSegments := dlGuard "hintNoSegments"
   streamPlaylistIsMedia := dlGuard "streamPlaylistIsMedia"
   noVariant := dlGuard "noVariant"
@@ -199,7 +201,7 @@ def genFlags : Flags where
   mapTestChecksNil := mapTestChecksNil
 
 /-- The guards the safety theorems need. (`initializeDefaultErrors`, `processChecksNilDecoder`, `renditionBeforeFilter`,
-    `dropsNegativePTS`, `capsDTSRTC`, `tooLate`, `hintDisappeared`… are free: the theorems hold for either value.) -/
+    `dropsNegativePTS`, `capsDTSRTC`, `tooLate`, `llEndsOnEndlist`… are free: the theorems hold for either value.) -/
 structure Flags.Guarded (F : Flags) : Prop where
   zeroTimeScale : F.zeroTimeScale = true
   filtersUnsupported : F.filtersUnsupported = true
@@ -816,7 +818,11 @@ def runLowLatency (F : Flags) : MediaView → List PlResp → DLTrace
             match asMedia F r with
             | .ok pl' =>
               if (F.hintDisappeared && pl'.hint.isNone) = true then
-                { pushes := [push], iters := 1, segReqs := 1, plReqs := 1, fin := .error .hintDisappeared }
+                -- `if pl.PreloadHint == nil { if pl.Endlist { push(nil); <-ctx.Done() … }; return "preload hint disappeared" }`
+                if (F.llEndsOnEndlist && pl'.endlist) = true then
+                  { pushes := [push], iters := 1, segReqs := 1, plReqs := 1, fin := .ended }
+                else
+                  { pushes := [push], iters := 1, segReqs := 1, plReqs := 1, fin := .error .hintDisappeared }
               else (runLowLatency F pl' rest).step (some push) 1 1
             | .error e => { pushes := [push], iters := 1, segReqs := 1, plReqs := 1, fin := .error e }
             | .panic k => { pushes := [push], iters := 1, segReqs := 1, plReqs := 1, fin := .panic k }
